@@ -22,7 +22,8 @@ def contains_import(tree, module, name):
 
 
 def used_externals_in(source) -> Set[str]:
-    tree = ast.parse(source)
+    # a byte order mark at the start of the file is not part of the code
+    tree = ast.parse(source.lstrip("\ufeff"))
 
     if not contains_import(tree, "inline_snapshot", "external"):
         return set()
